@@ -13,6 +13,7 @@ import CookModel.Lemmas.RoundtripBlock
 import CookModel.Lemmas.RoundtripInput
 import CookModel.Lemmas.RoundtripDoc
 import CookModel.Lemmas.RoundtripAnalysis
+import CookModel.Lemmas.RoundtripRecipe
 /-
   C01  Printing a recipe as Cooklang and parsing it returns that recipe.
 
@@ -873,5 +874,72 @@ example : (ingrOf C01_toyEnv C01_exSalt1).quantity.map (·.value) = some (.fixed
 example : ¬ plainMods ⟨Modifiers.REF⟩ := by decide
 example : ¬ lockOK (α := Rat) ⟨⟨.number (.regular 1), ⟨0, 1⟩⟩, some ⟨0, 1⟩⟩ false := by
   intro h; exact absurd (h rfl).1 (by decide)
+
+/-! ### end to end: print, lex, split, parse, analyse -/
+
+/-- The round trip for recipes made of steps, from the printed characters to the recipe.  `doc` is a
+    list of steps, each a list of segments (text runs — possibly over several lines — ingredients and
+    cookware in braces or single-word form, timers) with its separator; the printed text is
+    `render (pre ++ docSpec (stepsDoc doc))`.  Hypotheses: the side conditions of the syntax layers
+    (`DocItem.ok`, `sepsOK`, `blankLinesOK`, well-spelledness, no front-matter fence); every
+    component is a plain definition — neither `&` nor `+` among its modifiers, no intermediate
+    reference, `=` only on a numeric ingredient amount (`SegX.simple`); ADVANCED_UNITS and
+    INLINE_QUANTITIES are off (any other extension may be on).  Then `CooklangParser::parse`
+    (`parseRecipe`: pull parser + `parse_events`) returns a recipe and NO diagnostic, no panic, and
+    the recipe is the intended one, as a function of the abstract document:
+    * one unnamed section with one step per printed step, numbered 1, 2, …; the items of a step are,
+      segment by segment, the shown text of a run (a line break shows as a space, comments are
+      gone, escapes are resolved: `vis`) or the index of the component = number of components of
+      its kind printed before it (`absStepsFrom`);
+    * the ingredient, cookware and timer tables are the printed components in order with the
+      intended names, aliases, notes, modifier flags, amounts (`Linear` for a numeric ingredient
+      amount without `=`, else `Fixed`) and units (`absIngr`, `absCw`, `absTimer`);
+    * no inline quantity, no metadata entry.
+    Outside this theorem (tested only): references (`&`, or duplicate = reference mode), intermediate
+    references, sections and metadata through the analysis pass, the two extensions above. -/
+theorem C01_recipe_steps {α : Type} [Arith α] (env : Env) (pre : List Tok) (doc : List (List SegX × List Tok))
+    (hadv : env.ext.has Gen.EXT_ADVANCED_UNITS = false) (hinl : env.ext.has Gen.EXT_INLINE_QUANTITIES = false)
+    (hpre : blankLinesOK pre = true) (hok : ∀ d ∈ doc, (DocItem.step d.1).ok env.cs env.ext = true)
+    (hsimple : ∀ d ∈ doc, d.1.all SegX.simple = true) (hseps : sepsOK (doc.map (·.2)) = true)
+    (hw : WellSpelled env.cs (pre ++ docSpec (stepsDoc doc)))
+    (hfm : parseFrontmatter env.cs (render (pre ++ docSpec (stepsDoc doc))) = none) :
+    ∃ c : Col α,
+      parseRecipe env (render (pre ++ docSpec (stepsDoc doc))) = ⟨some c, #[], none⟩ ∧
+      c.sections = (if doc.isEmpty then [] else [⟨none, absStepsFrom [] 1 (doc.map (·.1))⟩]) ∧
+      c.ingredients.toList = ((doc.map (·.1)).flatten.filterMap SegX.ingr?).map absIngr ∧
+      c.cookware.toList = ((doc.map (·.1)).flatten.filterMap SegX.cw?).map absCw ∧
+      c.timers.toList = ((doc.map (·.1)).flatten.filterMap SegX.timer?).map absTimer ∧
+      c.inlineQ = #[] ∧ c.metaMap = [] := by
+  obtain ⟨r, h1, h2⟩ := rtr_parseRecipe_steps (α := α) env pre doc hadv hinl hpre hok hsimple hseps hw hfm
+  obtain ⟨e1, e2, e3, e4⟩ := rtr_expectedCol_abs env doc r h2 hsimple
+  exact ⟨expectedCol env r, h1, e1, e2, e3, e4, rfl, rfl⟩
+
+/-! example: `Fry @-?olive oil |EVOO {= 1 1 / 2 % fl oz }(cold pressed) with @salt⏎in #pot.`, a blank
+    line, `~{10%min} later.`; the expected steps -/
+def C01_stepsExt : Ext := ⟨Gen.EXT_COMPONENT_MODIFIERS ||| Gen.EXT_COMPONENT_ALIAS⟩
+def C01_stepsEnv : Env := ⟨toyCharSpec, C01_stepsExt, fun _ => none, fun _ _ => .ok, fun c => [c], 0⟩
+def C01_exStepsDoc : List (List SegX × List Tok) :=
+  [([.text [tk .word "Fry".toList, tk .ws [' ']], .ingredient C01_exComp C01_exCPad,
+     .text [tk .ws [' '], tk .word "with".toList, tk .ws [' ']], .ingredient1 C01_exSalt,
+     .text [C01_nl, tk .word "in".toList, tk .ws [' ']], .cookware1 { name := [tk .word "pot".toList] },
+     .text [tk .dot ['.']]], [C01_nl, C01_nl]),
+   ([.timer C01_exTimerAnon {}, .text [tk .ws [' '], tk .word "later".toList, tk .dot ['.']]], [C01_nl])]
+
+example : C01_stepsEnv.ext.has Gen.EXT_ADVANCED_UNITS = false ∧ C01_stepsEnv.ext.has Gen.EXT_INLINE_QUANTITIES = false ∧
+    (∀ d ∈ C01_exStepsDoc, (DocItem.step d.1).ok C01_stepsEnv.cs C01_stepsEnv.ext = true) ∧
+    (∀ d ∈ C01_exStepsDoc, d.1.all SegX.simple = true) ∧ sepsOK (C01_exStepsDoc.map (·.2)) = true := by decide
+example : WellSpelled toyCharSpec (docSpec (stepsDoc C01_exStepsDoc)) := by decide
+example : (parseFrontmatter toyCharSpec (render (docSpec (stepsDoc C01_exStepsDoc)))).isNone = true := by decide
+example : absStepsFrom [] 1 (C01_exStepsDoc.map (·.1)) =
+    [.step ⟨[.text "Fry ".toList, .ingredient 0, .text " with ".toList, .ingredient 1, .text " in ".toList, .cookware 0,
+             .text ".".toList], 1⟩,
+     .step ⟨[.timer 0, .text " later.".toList], 2⟩] := by decide
+example : (absIngr (α := Rat) C01_exComp).name = "olive oil".toList ∧
+    (absIngr (α := Rat) C01_exComp).modifiers = ⟨Modifiers.HIDDEN ||| Modifiers.OPT⟩ ∧
+    (absIngr (α := Rat) C01_exComp).note = some "cold pressed".toList := by decide
+/-- `&`, `+`, a lock on a timer amount are outside the simple family -/
+example : SegX.simple (.ingredient1 { mods := [.and], name := [tk .word ['x']] }) = false ∧
+    SegX.simple (.ingredient1 { mods := [.plus], name := [tk .word ['x']] }) = false ∧
+    SegX.simple (.timer C01_exTimer {}) = false := by decide
 
 end Cook
